@@ -383,7 +383,7 @@ def inputs(draw, g, max_len=10, n=4, extra_chars='', conc=None):
         w = None
         if mode <= 3:
             w = gen_sentence(g, rnd, conc)
-            if w is not None and len(w) > max_len + 4:
+            if w is not None and len(w) > max_len + (4 if max_len > 6 else 0):
                 w = None
             if w is not None and mode >= 2 and alpha:
                 # one edit
